@@ -45,6 +45,14 @@ pub struct Config {
     /// Fault T: the n-th blocking `park_timeout` times out.
     #[serde(default)]
     pub timeout_at_block: Option<u32>,
+    /// Handler futures wake every leaked waker when they are dropped (tasks
+    /// waking one another while being dropped).
+    #[serde(default)]
+    pub wake_on_drop: bool,
+    /// Drop the external handles (scheduler, keys, sources, sinks, addresses)
+    /// before the simulation instead of after it.
+    #[serde(default)]
+    pub drop_handles_first: bool,
 }
 
 #[derive(Clone, Debug, Serialize, Deserialize, PartialEq)]
